@@ -24,7 +24,10 @@ from fractions import Fraction
 
 import numpy as np
 
+from . import c11_fixed
+
 LEVEL = "proof"
+EXTRA_PROPS = ["QuantemModel.Props.C11Ext"]   # growth 6: rejected calls leave no trace / histories drop rejected calls / last writer wins
 MANIFEST_ENTRY = {
     "category": "proof",
     "text": "Lean 4 theorems over an executable heap-based state machine of vector.py + validate_vector_* (cells hold "
@@ -1926,6 +1929,11 @@ def run(ctx):
     check_signatures(ctx)
     drv = Driver("C11")
     try:
+        # FIXED histories (independent of VERIF_SEED): see c11_fixed.py
+        for name, ops in c11_fixed.fixed_histories():
+            w, done = run_ops(ctx, drv, c11_fixed.script_iter(ops), record=False)
+            ctx.dist[f"fixed-history:{name}:ops-executed"] += sum(1 for o in done if o["op"] != "alloc")
+            ctx.dist["fixed-histories"] += 1
         nseq = min(ctx.n(1000, 10000), 25000)      # the 10x failing-input search is capped (time budget)
         maxops = 40 if ctx.thorough() else 20
         for sidx in range(nseq):
